@@ -176,7 +176,7 @@ def parse_contracts(path):
                 if rest.strip() in ("end", "close"):
                     rest = rest.strip() + " <end-of-body>"
                 where, anchor = rest.split(None, 1)
-                assert where in ("before", "after", "end", "close", "before-each", "after-each", "before-any", "after-any"), where
+                assert where in ("before", "after", "end", "close", "before-each", "after-each", "before-any", "after-any", "afterblock-any", "afterblock-each"), where
                 section = "proof"
                 arg = (where, anchor.strip())
             elif tag == "sig":
@@ -721,7 +721,7 @@ class Gen:
         exact_norm = set()
         spans = {}
         for where, anchor, text in ctr.proofs:
-            if where in ("end", "close", "before-each", "after-each", "before-any", "after-any"):
+            if where in ("end", "close", "before-each", "after-each", "before-any", "after-any", "afterblock-any", "afterblock-each"):
                 continue
             sp = _find_anchor(body, anchor)
             spans[anchor] = sp
@@ -736,11 +736,25 @@ class Gen:
                 # right before the closing brace of the body (bodies without a tail expression)
                 ins.append((body.rstrip().rfind("}"), "\n" + text))
                 continue
-            if where in ("before-each", "after-each", "before-any", "after-any"):
+            if where in ("before-each", "after-each", "before-any", "after-any", "afterblock-any", "afterblock-each"):
                 hits = _find_all_anchors(body, anchor)
                 if not hits and where.endswith("-each"):
                     raise Undecided("%s: anchor not found: %r" % (key, anchor))
                 for a, b in hits:
+                    if where.startswith("afterblock"):
+                        # after the whole block statement the anchor opens (`if .. {` ... `}`): the anchor must end in `{`
+                        mb = mask(body)
+                        ob = mb.rfind("{", a, b + 1)
+                        if ob < 0:
+                            raise Undecided("%s: block anchor does not open a block: %r" % (key, anchor))
+                        cb = match_close(mb, ob)
+                        p = body.find("\n", cb)
+                        p = len(body) if p < 0 else p + 1
+                        # an `else` continuing the statement: not a plain block statement
+                        if re.match(r"\s*else\b", body[cb + 1:]):
+                            raise Undecided("%s: block anchor is followed by `else`: %r" % (key, anchor))
+                        ins.append((p, text))
+                        continue
                     if where.startswith("before"):
                         p = body.rfind("\n", 0, a) + 1
                         p = p or 1
